@@ -352,8 +352,24 @@ def fileOfKV (x : List Nat × J) : Option (List Nat × Nat × Nat × Nat) := do
   let s ← statsOfJ x.2
   pure (h, s)
 
+/-- a map read from a JSON object: of two entries with one key the later one stays (`HashMap::insert`) -/
+def dedupLast {σ : Type} : List (List Nat × σ) → List (List Nat × σ)
+  | [] => []
+  | x :: t => if t.any (fun y => y.1 = x.1) then dedupLast t else x :: dedupLast t
+
+theorem dedupLast_of_nodup {σ : Type} (l : List (List Nat × σ)) (h : (l.map (·.1)).Nodup) : dedupLast l = l := by
+  induction l with
+  | nil => rfl
+  | cons x t ih =>
+    simp only [List.map_cons, List.nodup_cons] at h
+    have hx : t.any (fun y => y.1 = x.1) = false := by
+      rw [List.any_eq_false]
+      intro y hy he
+      exact h.1 (List.mem_map.mpr ⟨y, hy, of_decide_eq_true he⟩)
+    simp [dedupLast, hx, ih h.2]
+
 def filesOfJ : J → Option (List (List Nat × Nat × Nat × Nat))
-  | .obj fkv => allSomeL (fkv.map fileOfKV)
+  | .obj fkv => (allSomeL (fkv.map fileOfKV)).map dedupLast
   | _ => none
 
 def scrapeRespOfJ : J → Option OutMsg
